@@ -3,10 +3,16 @@ PROP = dict(
     corr=dict(quick=400, thorough=2500),
     gen=[],
     corr_theorems=(
-        "M3d.C14.triangulation_certificate_sound (+ cert_area_redundant, triangulation_cover_partial): the driver "
-        "evaluates the proved checker certOk at Rat on the REAL triangle list of every call (kinds ear/mesh/single/face) "
-        "and prints what the property requires; profile: profile_volume_eq_area_times_height + "
-        "profile_mesh_manifold_partial (Surface.closedManifold_iff) on the real ProfileMesh soup, which must also equal "
+        "M3d.C14.triangulation_certificate_sound (+ cert_area_redundant, triangulation_winding_sum, "
+        "triangle_winding_indicator, triangulation_cover_partial): the driver "
+        "evaluates the proved checker certOk at Rat on the REAL triangle list of every call (kinds ear/mesh/single/face/off) "
+        "and prints what the property requires; for op lines with a dyadic unit of length `S k` (the Go code was given "
+        "2^k times the written coordinates) the checker is run on the written coordinates and the verdict transferred by "
+        "M3d.C14.cert_scale_invariant (certOk/edgesOkG invariant under scaling, areas scale by k^2; "
+        "cert_similarity_invariant: under every rotation+scaling+translation), the printed area is computed on the "
+        "scaled coordinates; inputs scaled by a non-dyadic factor are carried exactly (big integers over 2^m) and "
+        "checked directly; profile: profile_volume_eq_area_times_height + "
+        "profile_mesh_edge_manifold + profile_mesh_manifold_partial (Surface.closedManifold_iff) on the real ProfileMesh soup, which must also equal "
         "the model profileSoup of its caps; mono/vtype/splits/earseq compare the faithful models monoTris / vertexType / "
         "sweepSplits / triangulate (monotone_stack_area, sweep_types_turn, ear_clip_area, ear_clip_orientation are about "
         "these) with the real internals exactly"),
@@ -14,25 +20,38 @@ PROP = dict(
         "random simple lattice polygons with dyadic coordinates (den 1..16): convex hulls, star-shaped, polygonal and "
         "rectilinear spirals, rectangular/triangular combs, staircases, 2-opt untangled random polygons (many reflex "
         "vertices), edge-splitting growth, near-degenerate slivers (|orient| = 1 lattice unit), long colinear runs "
-        "(subdivided edges), x-monotone polygons; ear: every rotation of the start vertex (sampled above 10 vertices) x "
+        "(subdivided edges), x-monotone polygons, random quadrilaterals and pentagons (convex and concave darts; a "
+        "quarter of the face/off cases); ear: every rotation of the start vertex (sampled above 10 vertices) x "
         "both vertex orders x one random rigid lattice map (rotations by 90 degrees, reflections, translations); "
         "mesh/profile: regions with up to 6 loops, holes and nested islands, several outer loops, documented orientation "
         "(outer clockwise, holes counter-clockwise), random rigid map; single/splits/vtype/mono: the un-rotated "
         "internals on inputs sheared to pairwise distinct x; face: 2-D polygons embedded by exact lattice-affine maps "
-        "into axis planes and tilted planes (incl. the 3-4-5 rotation). Distinct = distinct op line (input + returned "
-        "triangles)"),
+        "into axis planes and tilted planes (incl. the 3-4-5 rotation), a quarter of them written as a one-face OFF "
+        "file and read back through ReadOFF (kind off). UNIT OF LENGTH: every ear polygon is triangulated at unit "
+        "scale and again in another unit, half of the mesh/face/profile cases and a third to a half of the "
+        "single/mono/vtype/splits/earseq cases are placed in another unit: 2^k, k in [-30,30] (exact in float64, "
+        "all families incl. colinear runs; small units twice as often as large ones), or a non-dyadic factor "
+        "(1e-4 1e-5 1e3 1e-3 1e-6 3e-5 0.1 1e5 7 1/3 2.5e-7; ear/mesh/profile and axis-parallel faces only): "
+        "the product is rounded, so these inputs are first put in general position (lattice x256, every vertex "
+        "jittered by up to 8, re-validated, every triple of vertices with |sin| > 1e-6 at each corner, far above "
+        "removeColinearPoints' documented 1e-8) and the op line carries the rounded float64 coordinates exactly. "
+        "Distinct = distinct op line (input + returned triangles)"),
     trusted=[
         "modelled, not verified: floating point. Every decision the Go code takes through clockwiseAngle (atan2/sin) is "
         "modelled as the sign of the exact determinant orient; the tolerances 1e-8 of removeColinearPoints and of the "
         "ear's diagonal test are modelled as exact colinearity / the closed condition X+Y<=1. On the generated dyadic "
-        "inputs the two coincide (smallest non-zero |sin| ~1e-6), which the exact earseq/mono/splits/vtype "
-        "correspondence confirms; for inputs whose features are below 1e-8 the tolerance removes near-colinear vertices "
-        "and the area is then only exact up to that tolerance (by design of the code)",
-        "not mechanised: (a) a positively oriented triangle has winding number = indicator of its interior, (b) the "
-        "polygonal Jordan theorem for the INPUT boundary, (c) subdivision-additivity of the crossing functional; with "
-        "them triangulation_cover_partial + clause 4 of triangulation_certificate_sound give non-overlap/inside/cover "
-        "pointwise. Proved instead: the chain-level statement (boundary of the sum of oriented triangles = oriented input "
-        "boundary) for every antisymmetric subdivision-additive functional, the area equation, orientation, vertex set",
+        "inputs the two coincide (smallest non-zero |sin| ~1e-6; angles are dimensionless, so this holds at every "
+        "unit of length, which the scaled cases check), which the exact earseq/mono/splits/vtype "
+        "correspondence confirms; for inputs with nearly-colinear-but-not-colinear vertices (|sin| <= 1e-8) the "
+        "tolerance removes them and the area is then only exact up to that tolerance (by design of the code): such "
+        "inputs are not generated (dyadic scaling preserves angles exactly; non-dyadic scaling is applied to inputs "
+        "in certified general position only)",
+        "not mechanised: the polygonal Jordan theorem for the INPUT boundary (a simple, correctly oriented region "
+        "boundary has winding number -1 at interior points, 0 outside). Everything about the OUTPUT is proved: "
+        "triangulation_cover_partial shows that every point off the triangle edges is contained in exactly "
+        "|winding number of the input boundary| triangles (triangle winding number = indicator of its interior: "
+        "triangle_winding_indicator; T-junction refinement: triangulation_winding_sum via crossing_segAdditive), so "
+        "non-overlap / inside / cover hold pointwise relative to the region defined by the boundary's winding number",
         "not mechanised: functional correctness of the sweep (its diagonals are non-crossing and inside), of the face "
         "walk, of misalignMesh/mesh hierarchy, and that colinear removal preserves the area (true for polygons without "
         "repeated consecutive points): certified PER RUN by the proved checker on the real output, not for all inputs",
@@ -40,8 +59,11 @@ PROP = dict(
         "the triangle is clockwise (fixCW_eq_rawFan); that every fan triangle of a monotone polygon is clockwise is a "
         "geometric fact checked per run (mono correspondence, certificate), not proved",
         "profile_mesh_manifold_partial: ClosedManifold of the ProfileMesh soup is decided per instance by Surface's "
-        "proved decider (and the soup is compared with the model profileSoup); the universal counting proof from the "
-        "cap certificate is not mechanised; the volume identity IS proved for all certified caps",
+        "proved decider (and the soup is compared with the model profileSoup). Universal from the cap certificate "
+        "(profile_mesh_edge_manifold): the soup is closed, consistently oriented and edge-manifold (EdgeBalanced) "
+        "without degenerate faces, and the volume identity; NOT universal: FanConnected (no pinched vertex), which "
+        "does not follow from the combinatorial gluing conditions alone and needs the geometric part of the "
+        "certificate (not mechanised)",
         "TriangulateFace: the projection uses Normalize (sqrt), so its chart is not executed exactly; the certificate is "
         "evaluated in the exact chart obtained by dropping a coordinate, justified by orient_affine",
         "input validity (simple, properly nested, oriented) is decided by untrusted code in the driver (simpleLoop / "
@@ -55,23 +77,29 @@ PROP = dict(
         "verifies everything else (edgesOkG false)",
     ],
     level_text=(
-        "Machine-checked (Lean 4, all linear ordered fields): ear clipping with ANY choice of ears preserves the "
+        "Machine-checked (Lean 4, all linear ordered fields): the certificate is invariant under every similarity "
+        "(rotation, translation, change of the unit of length: cert_similarity_invariant, cert_scale_invariant), every "
+        "point off the triangle edges lies in exactly |winding number of the boundary| triangles "
+        "(triangulation_cover_partial, triangle_winding_indicator, triangulation_winding_sum); ear clipping with ANY choice of ears preserves the "
         "shoelace area, emits n-2 triangles on input vertices (shoelace_fan, ear_clip_area), the ear test only accepts "
         "ears oriented like the polygon (ear_clip_orientation), diagonals added in both directions cancel for any "
         "decomposition into closed walks (diagonals_cancel), the stack algorithm's triangles sum to the monotone "
         "polygon's area with n-2 triangles and empty final stack (monotone_stack_area), the sweep classification is the "
         "textbook start/split/end/merge/chain by turn direction (sweep_types_turn/exhaustive), ProfileMesh's volume is "
-        "area x height for every certified cap triangulation (profile_volume_eq_area_times_height), and the certificate "
+        "area x height and its soup is closed, consistently oriented and edge-manifold for every certified cap "
+        "triangulation (profile_volume_eq_area_times_height, profile_mesh_edge_manifold), and the certificate "
         "checker is sound (triangulation_certificate_sound: input vertices only, documented orientation, glued along "
         "interior edges with boundary exactly the input boundary incl. T-junction refinement, chain-level boundary "
         "equation, exact area). Tie: the checker is executed at Rat, with no tolerance, on the real outputs of "
-        "Triangulate / TriangulateMesh / triangulateSingleMesh / TriangulateFace / ProfileMesh for generated inputs; "
+        "Triangulate / TriangulateMesh / triangulateSingleMesh / TriangulateFace / ReadOFF / ProfileMesh for generated "
+        "inputs at unit scale and in units from 2^-30 to 2^30 and non-dyadic factors (1e-6 .. 1e5); "
         "the models of Triangulate, the stack algorithm, VertexType and the sweep's helper bookkeeping are compared "
         "with the real internals exactly."),
     level_note=(
         "Universal for the algebraic/combinatorial cores and the checker; the statement 'the real code's output passes "
         "the checker' is established per generated instance (the sweep's geometric correctness is not proved). The "
-        "pointwise non-overlap/cover conclusion rests on three standard geometric lemmas that are not mechanised "
-        "(triangle winding number, polygonal Jordan theorem, crossing subdivision). One known finding (zero-area "
+        "pointwise non-overlap/cover conclusion is proved relative to the winding number of the input boundary; that "
+        "this winding number is the indicator of the region (polygonal Jordan theorem, a fact about the input) is not "
+        "mechanised. One known finding (zero-area "
         "triangles from TriangulateMesh on exactly colinear boundary vertices) is left in the code."),
 )
